@@ -247,9 +247,15 @@ def make_callback(op: dict):
         c = spec[i] if 0 <= i < len(spec) else "s"
         if c == "r":
             raise CbBoom("conflict callback raised")
+        if c == "k":
+            raise CbInterrupt("interrupted at the conflict prompt")     # not an Exception: Ctrl-C / SystemExit
         return c == "u"
 
     return on_conflict
+
+
+class CbInterrupt(BaseException):
+    """what a Ctrl-C at the interactive conflict prompt (KeyboardInterrupt) or sys.exit() in the callback looks like"""
 
 
 def classify_exc(e: BaseException) -> str:
@@ -258,7 +264,7 @@ def classify_exc(e: BaseException) -> str:
     m = str(e)
     if isinstance(e, Injected):
         return "fault"
-    if isinstance(e, CbBoom):
+    if isinstance(e, (CbBoom, CbInterrupt)):
         return "fail:callback"
     if isinstance(e, ValueError) and "missing required field" in m:
         return "fail:missing"
@@ -323,7 +329,7 @@ def run_op(dbpath: str, op: dict, now: int, workdir: str, k=None, mode="raise") 
             out = "ok:%d,%d,%d" % tuple(r)
         else:
             raise RuntimeError("unknown op " + kind)
-    except Exception as e:
+    except (Exception, CbInterrupt) as e:
         out = classify_exc(e)
     script = list(shim.script)
     shim.reset()
@@ -393,7 +399,7 @@ def op_model(op: dict, now: int) -> str:
             f = "X"
         else:
             f = ";".join(entry_model(e) for e in op["entries"]) if op["entries"] else "-"
-        return f"import:{int(op['merge'])}:{now}:{op['cb'] if op.get('cb') is not None else 'n'}:{f}"
+        return f"import:{int(op['merge'])}:{now}:{op['cb'].replace('k', 'r') if op.get('cb') is not None else 'n'}:{f}"
     raise ValueError(k)
 
 
@@ -518,7 +524,7 @@ def gen_ops(rng: random.Random, n: int, share=lambda x: x):
                 d.pop("fpraw", None)
             entries.insert(rng.randint(0, len(entries)), d)
         cbr = rng.random()
-        cb = None if cbr < 0.35 else "".join(rng.choice("usr" if cbr > 0.7 else "us") for _ in range(len(entries) + 1))
+        cb = None if cbr < 0.35 else "".join(rng.choice("usrk" if cbr > 0.7 else "us") for _ in range(len(entries) + 1))
         if r < 0.72:
             yield {"store": store, "op": {"kind": "import", "merge": merge, "entries": entries, "cb": cb}, "now": now}
             count += 1
